@@ -250,6 +250,22 @@ class Interp:
         env = Env(func, closure_env if closure_env is not None else Env(func.parent or func.module))
         if closure_env is None and func.parent is not None:
             raise AnalysisError(f"evaluator: closure {func.qualname} called without its defining environment")
+        stack = self.__dict__.setdefault("env_stack", [])
+        stack.append(env)
+        try:
+            return self._call_func(func, env, args, kwargs, bound_self)
+        finally:
+            stack.pop()
+
+    def frame_of(self, env):
+        """The frame object of an interpreted activation (see tb_here): code, module globals' names, live locals."""
+        f = env.func
+        mod_ = f.module if isinstance(f, Func) else f
+        return Obj(None, {"f_code": Obj(None, {"co_filename": getattr(mod_, "path", "?"), "co_name": getattr(f, "name", "<module>")}, name="code"),
+                          "f_globals": {"__name__": getattr(mod_, "name", "?"), "__file__": getattr(mod_, "path", "?")},
+                          "f_locals": env.vars, "f_back": None, "f_lineno": 0}, name=f"frame:{getattr(f, 'short', '?')}")
+
+    def _call_func(self, func, env, args, kwargs, bound_self):
         args = list(args)
         if bound_self is not None:
             args = [bound_self] + args
@@ -310,10 +326,7 @@ class Interp:
             return
         seen.append(env)
         f = env.func
-        mod_ = f.module if isinstance(f, Func) else f
-        frame = Obj(None, {"f_code": Obj(None, {"co_filename": getattr(mod_, "path", "?"), "co_name": getattr(f, "name", "<module>")}, name="code"),
-                           "f_globals": {"__name__": getattr(mod_, "name", "?"), "__file__": getattr(mod_, "path", "?")},
-                           "f_locals": env.vars, "f_back": None, "f_lineno": 0}, name=f"frame:{getattr(f, 'short', '?')}")
+        frame = self.frame_of(env)
         exc.attrs["__traceback__"] = Obj(None, {"tb_next": exc.attrs.get("__traceback__"), "tb_frame": frame, "tb_lineno": 0, "tb_lasti": 0},
                                          name=f"tb:{getattr(f, 'short', '?')}")
 
